@@ -149,6 +149,10 @@ alias: *anchor
 """,
 }
 
+# a long list that contains itself: with a guard on nesting depth only, the
+# importer needs (number of nodes)^2 insertions before it gives up
+HAND_SEEDS["h_yaml_5.yaml"] = b"- &l [1, " + b"2," * 1500 + b" *l]\n"
+
 KEYWORDS = [b"[Version]", b"[Number of Ports]", b"[Two-Port Data Order]",
             b"[Number of Frequencies]", b"[Number of Noise Frequencies]",
             b"[Reference]", b"[Matrix Format]", b"[Network Data]",
